@@ -175,11 +175,11 @@ def run_case(i, rng, rec, tier, state):
         offmode = rng.random()
         if offmode < 0.6:
             xy = xy + rng.uniform(-4, 4, size=2) * float(np.ptp(xy))
-        xy = xy[rng.permutation(len(xy))] if rng.random() < 0.5 else xy
         rec.cls("poly:" + pk)
-        E = geom.poly3d_exact(np.column_stack((xy, np.zeros(len(xy)))), [0, 0, 1])
+        E = geom.poly3d_exact(np.column_stack((xy, np.zeros(len(xy)))), [0, 0, 1])     # xy is still in cyclic order here
         cen = E["centroid"][:2]
         vd = np.arctan2(xy[:, 1] - cen[1], xy[:, 0] - cen[0])
+        xy = xy[rng.permutation(len(xy))] if rng.random() < 0.5 else xy              # the convex classes accept any input order
         th = points.angles(rng, vd, nth)
         form = rng.random()
         if mode == 0:
